@@ -65,6 +65,27 @@ def prop_check(exp, act, code, scripted, go):
     return None
 
 
+def reuse_check(code, d, f, p, go):
+    """expected type, response value REUSED (pre-filled with an earlier failed exchange's status and nested details).
+    The generated decoder does not clear what the new reply does not carry, so stale description / details in the value are
+    outside the property; what the property still demands: success iff the reply's code is Success; otherwise a *StatusError
+    with the reply's code, and with the reply's description / FieldError / ParameterError wherever the reply carries them."""
+    cls = go[0]
+    if cls in ("panic", "timeout"):
+        return ("no-outcome:reused-response:" + cls, "SendFor did not return an outcome (%s)" % cls)
+    if code == 0:
+        return None if cls == "nil" else ("success-reported-as-error:reused-response",
+                                          "expected type with status Success reported as error when the response value still holds an earlier exchange's details")
+    if cls == "nil":
+        return ("nonzero-status-not-error:reused-response", "non-Success status reported as success")
+    if cls != "status":
+        return ("status-not-exposed:reused-response:class", "error does not expose a *StatusError")
+    for name, got, sent in (("code", go[1], str(code)), ("description", go[2], d), ("field", go[3], f), ("parameter", go[4], p)):
+        if got != sent and (name == "code" or sent != "-"):
+            return ("status-not-exposed:reused-response:" + name, "*StatusError %s differs from what the reader sent" % name)
+    return None
+
+
 def render_check(br, go):
     """the returned error must be usable: every observer (Error, fmt verbs, unwrap chain, String of the codes, nested
     errors) runs without panic, and the text carries the reader's description. go[10:13] = render, contains, hash"""
@@ -182,6 +203,14 @@ class Gen:
                     for c in (0, rnd.choice([100, 101, 200, 201, 300, 401]), rnd.randrange(1, 65536)):
                         for o in orders:
                             self.x("shapes" if not o else "shapes-order-" + o, e, a, c, desc, fe, pe, "z" + o)
+        # 3b. the response value is reused: it still holds the status, description and nested details of an earlier failed
+        #     exchange (sentinel) when the next reply is decoded into it
+        for e in st:
+            if e == ERRMSG:
+                continue
+            for c in (0, 0, rnd.choice([100, 101, 201, 401]), rnd.randrange(1, 65536)):
+                for d_, f_, p_ in (("-", "-", "-"), ("6e6577", "-", "-"), ("-", self.fe(1), "-"), ("-", "-", self.pe(2, 1)), ("6e6577", self.fe(1), self.pe(1, 1))):
+                    self.x("reused", e, e, c, d_, f_, p_, "s")
         # 4. descriptions: empty / long / non-ASCII / not even UTF-8 (a Go string is bytes)
         descs = [b"", b"A", b"invalid value in field 3", b"x" * 255, b"y" * 256, b"z" * 257, b"w" * 1000,
                  bytes(range(32, 127)), "é".encode(), "日本語の説明".encode(),
@@ -410,6 +439,56 @@ class Gen:
             out[nv] = hs
         return out
 
+    def build_driver(self):
+        """the device service's exchanges (internal/driver): every one goes through LLRPDevice.TrySend.
+        returns list of request tuples: ('t', exp, act, code, desc, fe, pe, mode) TrySend itself with every status-bearing
+        response type; ('r', resource, exp, act, ...) Driver.HandleReadCommands; ('w', command, exp, act, ...)
+        Driver.HandleWriteCommands; ('o', act, code, ...) the exchange the device performs itself after connecting."""
+        rnd, out = self.rnd, []
+        others = lambda e: [t for t in REPLY_TYPES if t not in (e, ERRMSG)]
+        codes = self.sample_codes(400 if self.thorough else 70)
+
+        def status(c):
+            nested = rnd.random() < 0.25          # also with Success: attached details do not make a Success reply a failure
+            return (c, rnd.choice(["-", "6f6f7073"]) if c else "-", self.fe(1) if nested else "-", self.pe(rnd.choice([1, 2, 3]), rnd.getrandbits(3)) if nested else "-",
+                    "z" + (rnd.choice(["", "P", "I", "PI"]) if nested else "") + ("V%d" % rnd.randrange(8) if rnd.random() < 0.2 else ""))
+        for e in self.stypes:
+            for c in codes:
+                out.append(("t", e, e) + status(c))
+                if e != ERRMSG and c != 0:
+                    out.append(("t", e, ERRMSG) + status(c))
+            for a in rnd.sample(others(e), 3):
+                out.append(("t", e, a) + status(rnd.choice([0, 101])))
+        lo, hi = (0, 65536) if self.thorough else (0, 3000)
+        for c in range(lo, hi):                      # a dense stretch of codes on one type
+            out.append(("t", 31, 31, c, "-", "-", "-", "z"))
+        # TrySend's retry on a closed client: the reader drops the connection when the command arrives and answers the re-sent one
+        for c in (0, 101, 201, 65535):
+            out.append(("t", 30, 30) + status(c)[:4] + ("zD",))
+        out.append(("t", 35, ERRMSG, 300, "6f", "-", "-", "zD"))
+        reads = [("ReaderConfig", 12), ("ReaderCapabilities", 11), ("ROSpec", 36), ("AccessSpec", 54)]
+        writes = [("ROSpecID:Enable", 34), ("ROSpecID:Start", 32), ("ROSpecID:Stop", 33), ("ROSpecID:Disable", 35), ("ROSpecID:Delete", 31),
+                  ("AccessSpecID:Enable", 52), ("AccessSpecID:Disable", 53), ("AccessSpecID:Delete", 51),
+                  ("ReaderConfig", 13), ("ROSpec", 30), ("AccessSpec", 50), ("Custom", 1023)]
+        few = self.sample_codes(120 if self.thorough else 46)
+        for kind, table in (("r", reads), ("w", writes)):
+            for name, e in table:
+                for c in few[::1 if kind == "r" else 2]:
+                    if e != 1023:
+                        out.append((kind, name, e, e) + status(c))
+                    if c != 0:
+                        out.append((kind, name, e, ERRMSG) + status(c))
+                if e == 1023:
+                    out.append((kind, name, e, e, 0, "-", "-", "-", "z"))
+                for a in rnd.sample(others(e), 2):
+                    out.append((kind, name, e, a) + status(rnd.choice([0, 101])))
+        for c in (0, 101, 201, 300, 401, rnd.randrange(1, 65536), 65535):
+            out.append(("o", 13, c, "-" if c % 2 else "6f", "-", "-", "z"))
+        out.append(("o", ERRMSG, 101, "6f", "1.2", "-", "z"))
+        out.append(("o", 30, 0, "-", "-", "-", "z"))
+        out.append(("o", 13, 0, "-", "-", "-", "zV7"))
+        return out
+
     def build_unsolicited(self):
         """a reader-initiated frame (KeepAlive / ROAccessReport / ReaderEventNotification) that carries the id of the
         outstanding request arrives before the real reply: (exp, pre, code, desc, fe, pe, mode)"""
@@ -423,13 +502,140 @@ class Gen:
         return out
 
 
+DRV_PATH = {"t": "trysend", "r": "read", "w": "write", "o": "onconnect"}
+
+
+def driver_part(res, drv, fail, stats, dist, samples):
+    """runs the device-service exchanges on the real Driver (harness/driver/c12_test.go) and judges each with the same
+    predicate and the same decision function (through Client/StatusDriver.v: try_send). returns True if the run itself failed"""
+    ok, log, exe = vlib.build_harness("driver", PID, ["c12_test.go"])
+    if not ok:
+        res.violation("harness-build:driver", "Go harness for internal/driver does not build against the repository: " + log[-1500:], dict(kind="build"), False)
+        return True
+
+    def line(c):
+        return " ".join(str(x) for x in ((c[0], c[1]) + c[3:] if c[0] in ("r", "w") else c))
+
+    def run(cases, tag):
+        rc, gl, glog = vlib.run_harness(exe, "TestVerifC12Driver", "\n".join(line(c) for c in cases) + "\n", timeout=1200, tag=tag)
+        return rc, gl, glog
+    rc, gl, glog = run(drv, "d")
+    if rc != 0 or len(gl) != len(drv):
+        res.violation("harness-run:driver", "Go harness for internal/driver failed (rc=%s, %d of %d answers): %s" % (rc, len(gl), len(drv), glog[-1500:]),
+                      dict(kind="harness", log=glog[-3000:]), False)
+        return True
+    # the model: try_send 3 [AOutcome (send_for_outcome e a decoded)] (after one dropped connection: 1 or 2 retried attempts first)
+    oreq, omap = [], []
+    for c in drv:
+        if c[0] == "o":
+            e, a, st = 13, c[1], c[2:6]
+        elif c[0] == "t":
+            e, a, st = c[1], c[2], c[3:7]
+        else:
+            e, a, st = c[2], c[3], c[4:8]
+        oreq.append("ts 3 0 %d %d %d %s %s %s" % ((e, a) + tuple(st)))
+        omap.append((e, a, st))
+    orc, oout = vlib.run_oracle("c12", "\n".join(oreq) + "\n", timeout=600)
+    ol = oout.split("\n")
+    if orc != 0 or len(ol) < len(drv):
+        res.violation("harness-run:driver", "oracle failed on the device-service exchanges (rc=%s)" % orc, dict(kind="harness"), False)
+        return True
+    stats.update(exchanges=0, nontrivial=0, per_path={}, retried_after_drop=0)
+    seen = set()
+    redo = []
+    for idx, (c, g, o, (e, a, st)) in enumerate(zip(drv, gl, ol, omap)):
+        path = DRV_PATH[c[0]]
+        code = st[0]
+        scripted = "%d %s %s %s" % tuple(st)
+        mode = c[-1]
+        case = ["d"] + list(c)
+        stats["exchanges"] += 1
+        stats["per_path"][path] = stats["per_path"].get(path, 0) + 1
+        key = line(c)
+        if key not in seen and (code != 0 or a != e):
+            seen.add(key)
+            stats["nontrivial"] += 1
+        br = branch_of(e, a)
+        dist["driver:%s:%s" % (path, br)] = dist.get("driver:%s:%s" % (path, br), 0) + 1
+        desc = {"t": "LLRPDevice.TrySend with a response value of type %d" % e,
+                "r": "Driver.HandleReadCommands(%s) (expects type %d)" % (c[1], e),
+                "w": "Driver.HandleWriteCommands(%s) (expects type %d)" % (c[1], e),
+                "o": "the device's own SET_READER_CONFIG exchange after connecting (expects type 13)"}[c[0]]
+        what = "%s: the reader answers with type %d, status [%s]%s" % (desc, a, scripted[:200], ", header version " + mode[mode.index("V") + 1] if "V" in mode else "")
+        if "D" in mode:
+            what += " (after dropping the connection once when the command first arrived)"
+            stats["retried_after_drop"] += 1
+        pfx = "driver:%s:" % path
+        model_err = o.split(" ")[0] != "nil"
+        if c[0] == "o":
+            gt = g.split(" ")
+            if a == ERRMSG and code == 0:
+                continue
+            want = 2 if model_err else 1
+            got = int(gt[1]) if len(gt) == 2 and gt[0] == "conns" and gt[1].isdigit() else -1
+            if got != want:
+                redo.append((idx, want, got, what, case))
+            continue
+        gt = g.split(" ")
+        if len(gt) != 14:
+            fail("harness-answer", "unexpected driver harness answer: " + g[:200], False, case, g[:300], o[:300])
+            continue
+        if gt[0] == "noexchange" and "D" in mode:
+            stats["gave_up_after_drop"] = stats.get("gave_up_after_drop", 0) + 1
+            continue      # the allowed attempts ran out before the re-sent command reached the reader
+        if gt[0] == "noexchange":
+            fail(pfx + "no-exchange", what + ": the command returned without performing its exchange", False, case, g[:300], o[:300])
+            continue
+        if int(gt[13]) != e:
+            fail(pfx + "other-response-type", what + ": the exchange used a response value of type %s" % gt[13], False, case, g[:300], o[:300])
+            continue
+        if len([x for x in samples if x.get("scenario") == "device service"]) < 3 and code in (0, 101) and c[0] != "t":
+            samples.append(dict(scenario="device service", call=desc, reply_type=a, status=scripted, go=g, model=o))
+        g13 = gt[:13]
+        if g13[5] == "na":
+            g13 = g13[:5] + ["same"] + g13[6:]        # the command keeps its response value to itself: not observable
+        if "D" in mode and g13[0] in ("other", "timeout"):
+            stats["gave_up_after_drop"] = stats.get("gave_up_after_drop", 0) + 1
+            continue      # attempts ran out while the connection was being re-established: an error without a status is allowed
+        bad = prop_check(e, a, code, scripted, g13) or render_check(br, g13)
+        if bad:
+            fail(pfx + bad[0], what + ": " + bad[1] + "; observed [%s]" % g[:300], True, case, g[:300], o[:300])
+            continue
+        if "D" in mode:
+            continue
+        merr, msame, min_ = model_expect(o, "z")
+        if " ".join(gt[0:5]) != merr or (c[0] == "t" and ((msame and gt[5] != msame) or (min_ and " ".join(gt[6:10]) != min_))):
+            fail("model-differs:" + pfx + br, what + ": Go [%s] differs from the model [%s] where the property does not constrain it" % (g[:300], o[:300]),
+                 False, case, g[:300], o[:300])
+    # onConnect is observed through its effect (connection reset or not): a deviating case is re-run alone, twice, before it is believed
+    for idx, want, got, what, case in redo[:6]:
+        again = []
+        for k in range(2):
+            rc2, gl2, _ = run([drv[idx]], "o%d_%d" % (idx, k))
+            again.append(gl2[0] if rc2 == 0 and gl2 else "-")
+        gots = [got] + [int(x.split()[1]) if x.startswith("conns ") and x.split()[1].isdigit() else -1 for x in again]
+        if all(x != want for x in gots):
+            if want == 2 and all(x == 1 for x in gots):
+                sig, text = "nonzero-status-not-error" if case[2] in (13, ERRMSG) else "mismatch-not-error", "the device carried on as after a successful exchange (connection not reset)"
+                if case[2] == ERRMSG:
+                    sig = "errmsg-not-error"
+            elif want == 1 and all(x == 2 for x in gots):
+                sig, text = "success-reported-as-error", "the device reset the connection as after a failed exchange"
+            else:
+                sig, text = "no-outcome", "connections opened: %s (expected %d)" % (gots, want)
+            fail("driver:onconnect:" + sig, what + ": " + text, True, case, "conns %s" % gots, "conns %d" % want)
+    return False
+
+
 def run(tier, seed, replay=None):
     res = vlib.Result(PID, tier, seed)
     res.assumptions = vlib.TRUSTED_COMMON + [
         "the model covers the decision SendFor takes after SendMessage returned (type, payload) and, since round 5, which frame becomes "
         "the reply of a request (Client/StatusExchange.v: matched by id while the request is outstanding, header version ignored); "
         "goroutine interleavings of that hand-over are C03's subject, decoding of LLRPStatus bytes is tied here only through the scripted peer",
-        "the scripted peer's own framing / TLV encoder (harness/llrp/c12_test.go) produces well-formed LLRP bytes",
+        "the scripted peer's own framing / TLV encoder (harness/llrp/c12_test.go, harness/driver/c12_test.go) produces well-formed LLRP bytes",
+        "device service: an error 'exposes' the status if a *StatusError is reachable through errors.As or among the attempt errors kept in the exported "
+        "field Others of the *retry.FError that TrySend's retry wrapper returns; onConnect's exchange is observed through its effect (connection reset or not)",
         "caller-visible error = nil / errors.As(*StatusError) fields / other; error text is not compared",
         "response value 'untouched' is observed as reflect.DeepEqual with an identically built value (zero or sentinel-filled)",
     ]
@@ -461,7 +667,8 @@ def run(tier, seed, replay=None):
     thorough = tier == "thorough"
     if replay:
         rp = json.load(open(replay))
-        groups = [("replay", c[0], c[1], c[2], c[2] + 1, c[3], c[4], c[5], c[6]) for c in rp.get("cases", []) if len(c) == 7]
+        groups = [("reused" if (str(c[6]).startswith("s") and c[0] == c[1]) else "replay", c[0], c[1], c[2], c[2] + 1, c[3], c[4], c[5], c[6])
+                  for c in rp.get("cases", []) if len(c) == 7]
         unsol = [tuple(c[:7]) for c in rp.get("cases", []) if len(c) == 8 and c[7] == "u"]
         # the concurrent scenario depends on scheduling: a replayed round is repeated
         conc = [(c[1], c[2], [tuple(x) for x in c[3]]) for c in rp.get("cases", []) if len(c) == 4 and c[0] == "c"] * 60
@@ -470,6 +677,7 @@ def run(tier, seed, replay=None):
         by_cfg = {rp.get("config", "none"): groups}
         do_dt = False
         undec = [tuple(c[1:4]) for c in rp.get("cases", []) if len(c) == 4 and c[0] == "y"]
+        drv = [tuple(c[1:]) for c in rp.get("cases", []) if len(c) >= 7 and c[0] == "d"]
         hists = {}
         for c in rp.get("cases", []):
             if len(c) == 3 and c[0] == "h":
@@ -487,6 +695,7 @@ def run(tier, seed, replay=None):
             by_cfg["none@%d" % nv] = g
         undec = gen.build_undecodable()
         hists = gen.build_histories()
+        drv = gen.build_driver()
         do_dt = True
 
     fails = {}            # signature -> [count, text, found_input, [cases]]
@@ -586,6 +795,12 @@ def run(tier, seed, replay=None):
                     vp = "header-version:"
                     what += "; reply header stamped with LLRP version %s, connection version: %s" % (
                         mode[mode.index("V") + 1] if "V" in mode else "1 (default)", NEGOTIATED[nv])
+                if kind == "reused":
+                    bad = reuse_check(c, d, f, p, gt) or render_check(br, gt)
+                    if bad:
+                        fail(pfx + bad[0], "%s; the response value passed in was used before (holds status 48879 'sentinel' with nested details): %s; Go returned [%s]" % (
+                            what, bad[1], g[:300]), True, case, g[:300], o[:300], cfg)
+                    continue
                 bad = prop_check(e, a, c, scripted, gt) or render_check(br, gt)
                 if bad:
                     fail(pfx + vp + bad[0], "%s: %s; Go returned [%s]" % (what, bad[1], g[:300]), True, case, g[:300], o[:300], cfg)
@@ -790,6 +1005,15 @@ def run(tier, seed, replay=None):
                         fail("model-differs:history", what + ", abandoned before any reply to it arrived: Go [%s], model [%s]" % (ans[:300], m[:300]),
                              False, rcase, g[:600], o[:300])
 
+    # the device service's exchanges (internal/driver): TrySend, HandleReadCommands, HandleWriteCommands, onConnect
+    drv_stats = {}
+    if drv:
+        bad_run = driver_part(res, drv, fail, drv_stats, dist, samples)
+        if bad_run:
+            return res.finish()
+        evals += drv_stats.get("exchanges", 0)
+        nontriv += drv_stats.get("nontrivial", 0)
+
     # several requests outstanding on one Client, replies back to back: every caller must get its own reply's outcome
     conc_seen = dict(rounds=0, callers=0, gomaxprocs1_rounds=0)
     if conc:
@@ -934,7 +1158,8 @@ def run(tier, seed, replay=None):
                     what += " in a frame stamped with LLRP version " + mode[mode.index("V") + 1]
                 fail(sig, what + ": " + bad[1] + "; observed [%s]" % g[:300], True, case, g[:300], "")
 
-    for sig, (cnt, text, found, cases, g, o, fcfg) in sorted(fails.items()):
+    # violations with a concrete failing input first, the plain configuration before the handler configurations
+    for sig, (cnt, text, found, cases, g, o, fcfg) in sorted(fails.items(), key=lambda kv: (not kv[1][2], kv[0].startswith("handlers="), kv[0])):
         res.violation(sig, text + (" (%d such cases)" % cnt if cnt > 1 else ""),
                       dict(kind="input" if found else "correspondence", correspondence="C12/SendFor-vs-send_for_outcome",
                            cases=cases, config=fcfg, observed=g, model=o, failing_cases=cnt,
@@ -949,7 +1174,9 @@ def run(tier, seed, replay=None):
                                        "the reply's header carries LLRP version d; ['dt', code] = text of a bare status code; ['y', exp, act, payload hex] = reply whose "
                                        "payload does not decode; ['h', n, steps] = exchange history on one Client: ('S', caller, expected type) request started, "
                                        "('A', caller) its context cancelled, ('R', header version, type, id (k<caller> | f<unused id> | m<largest id so far + n> | z0 = id 0, used up by a warm-up exchange), layout, code, desc, fe, pe, order "
-                                       "flags) frame written by the reader"),
+                                       "flags) frame written by the reader; ['d', t|r|w|o, ...] = exchange of the device service (internal/driver): t = LLRPDevice.TrySend "
+                                       "[exp, act, status...], r / w = Driver.HandleReadCommands / HandleWriteCommands [resource or command, exp, act, status...], "
+                                       "o = the device's own exchange after connecting [act, status...]; mode letter D = the reader drops the connection once first"),
                       found)
 
     res.coverage.update(
@@ -961,14 +1188,15 @@ def run(tier, seed, replay=None):
              "distinct_nontrivial counts distinct rounds); both sub-parameter orders count as distinct cases; the same classes are run on "
              "clients built with MessageHandlers (distinct per configuration); plus Connect's/Shutdown's own exchanges; plus the bare "
              "text of each of the 65536 codes (not counted as non-trivial); plus replies whose payload does not decode (one case per payload); "
-             "plus exchange histories (evaluations counts callers, distinct_nontrivial counts distinct histories)",
+             "plus exchange histories (evaluations counts callers, distinct_nontrivial counts distinct histories); plus the device service's "
+             "exchanges on the real Driver against a scripted reader (TrySend, HandleReadCommands, HandleWriteCommands, onConnect)",
         samples=samples, input_distribution=dist, traces_validated_against_impl=evals,
         status_codes_enumerated="all 65536 codes on %d (expected, reply) type combinations (%d exchanges); 300 stratified codes on the others%s"
                                 % (len(rkeys), codes_full, "" if not thorough else " (none: thorough enumerates every status type)"),
         exhaustive=bool(thorough), exhaustive_note="thorough: 65536 codes x 19 status-bearing types x {expected, ERROR_MESSAGE}; "
                                                    "descriptions and nested shapes are sampled (unbounded space; covered by the proof)",
         reader_initiated_frames=unsol_seen, concurrent=conc_seen, handler_configurations=cfg_stats, rendering=render_stats,
-        status_code_texts=dt_stats, internal_exchanges=int_stats, undecodable_replies=undec_stats, exchange_histories=hist_stats,
+        status_code_texts=dt_stats, internal_exchanges=int_stats, undecodable_replies=undec_stats, exchange_histories=hist_stats, device_service_exchanges=drv_stats,
         header_versions="all 8 values of the reply's header version x 4 ways of negotiating the connection's version, on the expected / "
                         "ERROR_MESSAGE / unrelated-type branches (kind 'versions'), on Connect's and Shutdown's own exchanges, in the concurrent rounds and "
                         "in every frame of the exchange histories", type_pairs=len(seen_pairs), status_types=stypes, max_nested_depth=seen_depth, max_description_bytes=seen_desc_len,
